@@ -90,7 +90,7 @@ def replay(reqs, fib, ref):
 class Prop:
     pid = 'C20'
     props_file = 'Props/C20.v'
-    required_theorems = ['fib_replay_eq_ecmp_of_best', 'vrf_fib_replay_eq_ecmp_of_best', 'nht_refcount_eq_paths',
+    required_theorems = ['fib_replay_eq_ecmp_of_best', 'vrf_fib_replay_eq_ecmp_of_best', 'nht_refcount_eq_paths', 'fib_replay_eq_ecmp_of_best_legacy_refuted', 'vrf_fib_replay_eq_ecmp_of_best_legacy_refuted',
                          'unreachable_nexthop_excluded']
     correspondence_name = ('Model/Fib.v step vs daemon/src/table_manager.rs TableManager (insert_route, remove_route, drop_families, '
                            'unregister_peer, drop_stale_families, mark_llgr_stale, drop_llgr_stale_families, update_nexthop_validity, '
